@@ -247,16 +247,42 @@ impl Cell {
 
 // ---- delaying in-memory Zarr store --------------------------------------------------------------------
 
-/// MemoryStore whose writes take a generated amount of time (write-queue timing of the async writer).
-pub struct DelayStore {
-    pub inner: MemoryStore,
+/// A store whose writes take a generated amount of time (write-queue timing of the async writer) and that can be
+/// copied between two store operations ("the process stopped here"): writes hold the gate shared, a copy holds it
+/// exclusively, so a copy never sees a half-written value.
+pub struct DelayStore<S = MemoryStore> {
+    pub inner: S,
     pub seed: u64,
     pub writes: AtomicU64,
+    pub gate: std::sync::RwLock<()>,
 }
 
-impl DelayStore {
+impl DelayStore<MemoryStore> {
     pub fn new(seed: u64) -> Self {
-        DelayStore { inner: MemoryStore::new(), seed, writes: AtomicU64::new(0) }
+        DelayStore::wrap(MemoryStore::new(), seed)
+    }
+    /// Copy every key into a fresh store ("the process stopped here; a new reader opens the files").
+    pub fn snapshot(&self) -> Arc<MemoryStore> {
+        self.exclusive(|| {
+            let out = MemoryStore::new();
+            for key in self.inner.list().expect("list") {
+                if let Some(v) = self.inner.get(&key).expect("get") {
+                    out.set(&key, v).expect("set");
+                }
+            }
+            Arc::new(out)
+        })
+    }
+}
+
+impl<S> DelayStore<S> {
+    pub fn wrap(inner: S, seed: u64) -> Self {
+        DelayStore { inner, seed, writes: AtomicU64::new(0), gate: std::sync::RwLock::new(()) }
+    }
+    /// Run `f` while no write is in progress.
+    pub fn exclusive<T>(&self, f: impl FnOnce() -> T) -> T {
+        let _g = self.gate.write().unwrap_or_else(|e| e.into_inner());
+        f()
     }
     fn delay(&self) {
         let k = self.writes.fetch_add(1, Ordering::SeqCst);
@@ -270,19 +296,9 @@ impl DelayStore {
             _ => {}
         }
     }
-    /// Copy every key into a fresh store ("the process stopped here; a new reader opens the files").
-    pub fn snapshot(&self) -> Arc<MemoryStore> {
-        let out = MemoryStore::new();
-        for key in self.inner.list().expect("list") {
-            if let Some(v) = self.inner.get(&key).expect("get") {
-                out.set(&key, v).expect("set");
-            }
-        }
-        Arc::new(out)
-    }
 }
 
-impl ReadableStorageTraits for DelayStore {
+impl<S: ReadableStorageTraits> ReadableStorageTraits for DelayStore<S> {
     fn get_partial_many<'a>(
         &'a self,
         key: &StoreKey,
@@ -301,19 +317,23 @@ impl ReadableStorageTraits for DelayStore {
     }
 }
 
-impl WritableStorageTraits for DelayStore {
+impl<S: WritableStorageTraits> WritableStorageTraits for DelayStore<S> {
     fn set(&self, key: &StoreKey, value: Bytes) -> Result<(), StorageError> {
         self.delay();
+        let _g = self.gate.read().unwrap_or_else(|e| e.into_inner());
         self.inner.set(key, value)
     }
     fn set_partial_many<'a>(&'a self, key: &StoreKey, offset_values: zarrs::storage::OffsetBytesIterator<'a>) -> Result<(), StorageError> {
         self.delay();
+        let _g = self.gate.read().unwrap_or_else(|e| e.into_inner());
         self.inner.set_partial_many(key, offset_values)
     }
     fn erase(&self, key: &StoreKey) -> Result<(), StorageError> {
+        let _g = self.gate.read().unwrap_or_else(|e| e.into_inner());
         self.inner.erase(key)
     }
     fn erase_prefix(&self, prefix: &StorePrefix) -> Result<(), StorageError> {
+        let _g = self.gate.read().unwrap_or_else(|e| e.into_inner());
         self.inner.erase_prefix(prefix)
     }
     fn supports_set_partial(&self) -> bool {
@@ -321,7 +341,7 @@ impl WritableStorageTraits for DelayStore {
     }
 }
 
-impl ListableStorageTraits for DelayStore {
+impl<S: ListableStorageTraits> ListableStorageTraits for DelayStore<S> {
     fn list(&self) -> Result<StoreKeys, StorageError> {
         self.inner.list()
     }
